@@ -536,13 +536,14 @@ def runRegions (j : Json) : Except String Json := do
 
 /-- the flattened program under the core reference semantics against the source under `PV.Src` on one environment:
     the unproved step (`flatten`) is compared executably; prefix rule when either side runs out of fuel -/
-def flatAgrees (prog : Program Float) (core : PV.Core.Stmt Float) (seed fuel : Nat) (pool : Array Float) : String :=
+def flatAgrees (prog : Program Float) (core : PV.Core.Stmt Float) (procs : List (PV.Core.Stmt Float)) (seed fuel : Nat) (pool : Array Float) : String :=
   let env := envF seed pool
   let (st, r) := runProgram FloatSem.sem env prog fuel 0.0
   let ts := st.trace.reverse
-  let (tc, cdone) := match PV.Core.exec FloatSem.sem env fuel core ⟨fun _ => 0.0, []⟩ with
+  let (tc, cdone) := match PV.Core.exec FloatSem.sem env (PV.Core.procOf procs) fuel core ⟨fun _ => 0.0, fun _ => 0.0, []⟩ with
     | .ok _ s => (s.trace.reverse, true)
     | .timeout s => (s.trace.reverse, false)
+    | .stuck => ([], false)
   let cp := commonPrefix ts tc
   let sdone := match r with | .ok _ => true | .error _ => false
   if cp < min ts.length tc.length then s!"flatten-trace-mismatch at {cp}"
@@ -551,32 +552,40 @@ def flatAgrees (prog : Program Float) (core : PV.Core.Stmt Float) (seed fuel : N
   else if cdone && !sdone && ts.length > tc.length then "flatten-missing-effects"
   else "ok"
 
-/-- is the real code (text with virtual registers and labels) instruction for instruction `comp (flatten src)`? -/
+def floatCfg : PV.Flatten.Cfg Float :=
+  { zero := 0.0, negV := fun v => -v, isOne := fun v => v == 1.0, isNeg := fun v => v < 0.0, ofNat := fun n => Float.ofNat n }
+
+/-- is the real code (text with virtual registers and labels) instruction for instruction `compProg (flatten src)`? -/
 def coreCompare (j : Json) : Except String Json := do
   let prog ← progOfJson (← j.getObjVal? "prog")
   let text ← j.getObjValAs? String "text"
-  match PV.Flatten.flatten (0.0 : Float) 1.0 (fun v => -v) (fun v => v == 1.0) (fun v => v < 0.0) prog with
+  match PV.Flatten.flatten floatCfg prog with
   | none => pure (Json.mkObj [("verdict", Json.str "outside-core")])
-  | some core =>
-    if !PV.Core.pairsOk PV.Flatten.branchPairs core then pure (Json.mkObj [("verdict", Json.str "negok-false")]) else
+  | some (core, procs) =>
+    -- the executable form of the theorems' hypothesis `Good`: branch pairs from the real tables, `ra` untouched, calls of
+    -- existing procedures only, procedures call nothing
+    let idxs := List.range procs.length
+    let good := PV.Core.goodB PV.Flatten.branchPairs idxs core && procs.all (fun b => PV.Core.goodB PV.Flatten.branchPairs [] b)
+    if !good then pure (Json.mkObj [("verdict", Json.str "negok-false")]) else
     let flat : String := match j.getObjValAs? Nat "seed", j.getObjValAs? Nat "fuel", (j.getObjVal? "pool").bind poolOf with
-      | .ok seed, .ok fuel, .ok pool => flatAgrees prog core seed fuel pool
+      | .ok seed, .ok fuel, .ok pool => flatAgrees prog core procs seed fuel pool
       | _, _, _ => "not-run"
     if flat != "ok" && flat != "not-run" then pure (Json.mkObj [("verdict", Json.str "flatten-disagrees"), ("detail", Json.str flat)]) else
-    let model := PV.Core.comp (fun n => Float.ofNat n) core 0 0 0
+    let model := PV.Core.compProg (fun n => Float.ofNat n) core procs
     match parseProgram text with
     | .error e => pure (Json.mkObj [("verdict", Json.str "parse-error"), ("detail", Json.str e)])
     | .ok pp =>
       let a := PV.Flatten.canon model
       let b := PV.Flatten.canon pp.prog
+      let extra := [("procs", Json.num (JsonNumber.fromNat procs.length))]
       if a.length != b.length then
-        pure (Json.mkObj [("verdict", Json.str "length"), ("model", Json.num (JsonNumber.fromNat a.length)), ("real", Json.num (JsonNumber.fromNat b.length)),
-          ("model_code", Json.arr (a.map Json.str).toArray), ("real_code", Json.arr (b.map Json.str).toArray)])
+        pure (Json.mkObj ([("verdict", Json.str "length"), ("model", Json.num (JsonNumber.fromNat a.length)), ("real", Json.num (JsonNumber.fromNat b.length)),
+          ("model_code", Json.arr (a.map Json.str).toArray), ("real_code", Json.arr (b.map Json.str).toArray)] ++ extra))
       else
         match (a.zip b).zipIdx.find? (fun ((x, y), _) => x != y) with
-        | some ((x, y), i) => pure (Json.mkObj [("verdict", Json.str "differ"), ("line", Json.num (JsonNumber.fromNat i)), ("model", Json.str x), ("real", Json.str y),
-            ("model_code", Json.arr (a.map Json.str).toArray), ("real_code", Json.arr (b.map Json.str).toArray)])
-        | none => pure (Json.mkObj [("verdict", Json.str "same"), ("lines", Json.num (JsonNumber.fromNat a.length)), ("flatten", Json.str flat)])
+        | some ((x, y), i) => pure (Json.mkObj ([("verdict", Json.str "differ"), ("line", Json.num (JsonNumber.fromNat i)), ("model", Json.str x), ("real", Json.str y),
+            ("model_code", Json.arr (a.map Json.str).toArray), ("real_code", Json.arr (b.map Json.str).toArray)] ++ extra))
+        | none => pure (Json.mkObj ([("verdict", Json.str "same"), ("lines", Json.num (JsonNumber.fromNat a.length)), ("flatten", Json.str flat)] ++ extra))
 
 /-! ### C05: label removal at machine level -/
 
